@@ -387,6 +387,8 @@ int vs_pthread_cond_wait(pthread_cond_t *c, pthread_mutex_t *m) {
   if (mit->second.owner != vs::self->id) vs::verdict("cond-wait-bad-mutex", "pthread_cond_wait called with a mutex the caller does not hold: " + vs::describe_all());
   // atomically: release the mutex and join the wait set
   vs_need_init(s.conds, c, "pthread_cond_wait");
+  // the harness marks trylock calls (in_api == 2): taking a short internal mutex is fine, going to sleep until another thread signals is not
+  if (vs::self->in_api == 2) vs::verdict("trylock-blocks", std::string(vs::self->api_name) + " went to sleep on a condition variable (a trylock never blocks: it returns FALSE when the mode is not grantable): " + vs::describe_all());
   mit->second.owner = -1;
   vs::Cond &cd = s.conds[c];
   cd.waiters.push_back(vs::self->id);
@@ -440,6 +442,7 @@ int vs_pthread_rwlock_rdlock(pthread_rwlock_t *l) {
   vs_need_init(s.rwlocks, l, "pthread_rwlock_rdlock");
   if (!s.active || !vs::self) { s.rwlocks[l].readers.insert(0); return 0; }
   vs::point(false);
+  if (s.rwlocks[l].writer != -1 && vs::self->in_api == 2) vs::verdict("trylock-blocks", std::string(vs::self->api_name) + " blocks in pthread_rwlock_rdlock (a trylock never blocks): " + vs::describe_all());
   while (s.rwlocks[l].writer != -1) { vs::self->wait = vs::W_RDLOCK; vs::self->wait_obj = l; vs::block_until_enabled(); }
   vs::self->wait = vs::W_NONE;
   s.rwlocks[l].readers.insert(vs::self->id);
@@ -459,6 +462,7 @@ int vs_pthread_rwlock_wrlock(pthread_rwlock_t *l) {
   vs_need_init(s.rwlocks, l, "pthread_rwlock_wrlock");
   if (!s.active || !vs::self) { s.rwlocks[l].writer = 0; return 0; }
   vs::point(false);
+  if ((s.rwlocks[l].writer != -1 || !s.rwlocks[l].readers.empty()) && vs::self->in_api == 2) vs::verdict("trylock-blocks", std::string(vs::self->api_name) + " blocks in pthread_rwlock_wrlock (a trylock never blocks): " + vs::describe_all());
   while (s.rwlocks[l].writer != -1 || !s.rwlocks[l].readers.empty()) { vs::self->wait = vs::W_WRLOCK; vs::self->wait_obj = l; vs::block_until_enabled(); }
   vs::self->wait = vs::W_NONE;
   s.rwlocks[l].writer = vs::self->id;
